@@ -643,6 +643,25 @@ static void engine_run(void) {
 			tr_printf("FAULT %d %s now=", s, tok[2]);
 			tr_hex(slots[s].p, slots[s].len);
 			tr_str("\n");
+		} else if (!strcmp(tok[0], "PRE") && n >= 3) {
+			/* what the destination object of the next decode holds: a decoder that leaves part of its output
+			 * unwritten on a failure path lets the stale content decide the verdict */
+			const char *type = tok[1];
+			int inf = !strcmp(tok[2], "inf");
+			if (!type_ok(type)) continue;
+			RLC_TRY {
+				if (!strcmp(type, "ep") || !strcmp(type, "g1")) { if (inf) ep_set_infty(ey); else ep_curve_get_gen(ey); }
+				else if (!strcmp(type, "ep2") || !strcmp(type, "g2")) { if (inf) ep2_set_infty(e2y); else ep2_curve_get_gen(e2y); }
+				else if (!strcmp(type, "eb")) { if (inf) eb_set_infty(eby); else eb_curve_get_gen(eby); }
+#ifdef SIM_ED
+				else if (!strcmp(type, "ed")) { if (inf) ed_set_infty(edy); else ed_curve_get_gen(edy); }
+#endif
+				else if (!strcmp(type, "bn") || !strcmp(type, "bnraw")) { if (inf) bn_zero(by); else { bn_set_2b(by, RLC_BN_BITS - 1); bn_neg(by, by); } }
+				else if (!strcmp(type, "fp")) { if (inf) fp_zero(fy); else fp_set_dig(fy, 1); }
+				else if (!strcmp(type, "fb")) { if (inf) fb_zero(bfy); else fb_set_dig(bfy, 1); }
+				else if (!strcmp(type, "gt")) { if (inf) gt_set_unity(gy); else gt_get_gen(gy); }
+			} RLC_CATCH_ANY { }
+			(void)err_get_code();
 		} else if (!strcmp(tok[0], "DEC") && n >= 3) {
 			int s = atoi(tok[1]) % NSLOT;
 			const char *type = tok[2];
